@@ -9,4 +9,4 @@ d=json.load(open(sys.argv[1]+"/meta.json"))["confirmed"]
 print(sys.argv[1], d["valid_seed"], [v["verdict"] for v in d["checks"].values()])
 PY
 done
-rm -f /tmp/vf_reeval_*.log
+rm -f /tmp/vf_reeval_C*.log
